@@ -157,6 +157,11 @@ func c06Inputs(r *fw.Rng, measure string) ([]gen.FastaRec, []c06Target, string) 
 		}
 		ts = append(ts, c06Target{rec: gen.FastaRec{ID: fmt.Sprintf("t%d", i), Desc: fmt.Sprintf("t%d", i), Seq: s}, idx: i, comp: model.Completeness(s)})
 	}
+	if r.Chance(0.2) {
+		// one target carries the name of a query: names never enter the order
+		k, j := r.Intn(len(qs)), r.Intn(len(ts))
+		ts[j].rec.ID, ts[j].rec.Desc = qs[k].ID, qs[k].Desc
+	}
 	return qs, ts, undefPos
 }
 
